@@ -54,7 +54,8 @@ var pGrid = []float64{1e-6, 1e-3, .01, .1, .25, .5, .75, .9, .99, 1 - 1e-3, 1 - 
 func genUV(gen *vlib.G) {
 	for _, sp := range uvSpecs() {
 		sp := sp
-		for _, p := range sp.grid(gen.Thorough()) {
+		// the identities are cheap: both tiers use the full parameter grid (the tiers differ in uv-rand)
+		for _, p := range sp.grid(true) {
 			p := p
 			gen.Case(pkey(sp, p), func(t *vlib.T) { checkUV(t, sp, p) })
 		}
@@ -67,7 +68,7 @@ func genUV(gen *vlib.G) {
 func genUVFit(gen *vlib.G) {
 	for _, sp := range uvSpecs() {
 		sp := sp
-		for _, p := range sp.grid(gen.Thorough()) {
+		for _, p := range sp.grid(true) {
 			p := p
 			d := sp.mk(p, nil)
 			if _, ok := reflect.PointerTo(reflect.TypeOf(d)).MethodByName("Fit"); !ok {
@@ -193,11 +194,12 @@ func (c *uvCtx) edgeAllow() float64 {
 	}
 	v := 0.0
 	catch(func() {
-		if isFinite(c.lo) && c.lo != 0 {
-			v += cd.CDF(c.lo + 16*0x1p-52*math.Abs(c.lo))
+		// (an end at 0: arguments below 1e-300 are denormal or underflow in every product)
+		if isFinite(c.lo) {
+			v += cd.CDF(c.lo + math.Max(16*0x1p-52*math.Abs(c.lo), 1e-300))
 		}
-		if isFinite(c.hi) && c.hi != 0 {
-			v += 1 - cd.CDF(c.hi-16*0x1p-52*math.Abs(c.hi))
+		if isFinite(c.hi) {
+			v += 1 - cd.CDF(c.hi-math.Max(16*0x1p-52*math.Abs(c.hi), 1e-300))
 		}
 	})
 	if math.IsNaN(v) {
@@ -397,6 +399,10 @@ func (c *uvCtx) continuous() {
 				r.cls(c.tailClass(0, p), "Quantile-panic", "p="+g(p), "Quantile panics: %v", pv)
 				continue
 			}
+			if (p < 1e-6 || p > 1-1e-6) && c.outOfBox() {
+				c.t.Count("far_tail_quantiles_not_judged_outside_the_box", 1)
+				continue
+			}
 			if math.IsNaN(x) || x < c.lo || x > c.hi {
 				r.cls(c.tailClass(x, p), "Quantile-in-support", "p="+g(p), "Quantile=%v is not in the support [%v,%v]", x, c.lo, c.hi)
 				continue
@@ -514,6 +520,12 @@ func (c *uvCtx) continuous() {
 					if p > 1-1e-6 {
 						tol = math.Max(tol, tolQInvBetaUpper)
 					}
+				}
+			} else if p < 1e-6 {
+				// ... and in the far lower tail to a few per cent of the tail (observed 2.6%)
+				switch c.sp.name {
+				case "Beta", "F", "StudentsT":
+					tol = math.Max(tol, math.Min(tolQInvBetaUpper, 0.05*p))
 				}
 			}
 			if math.Abs(cv-p) <= tol {
@@ -645,7 +657,7 @@ func (c *uvCtx) continuous() {
 			integral := 0.0
 			for j := 0; j+1 < len(cuts); j++ {
 				if cuts[j+1] > cuts[j] {
-					integral += glAdaptive(f, cuts[j], cuts[j+1], 1e-12)
+					integral += glAdaptive(f, cuts[j], cuts[j+1], 1e-12, c.lo, c.hi)
 				}
 			}
 			dc := c.cdf(b) - c.cdf(a)
@@ -687,6 +699,28 @@ func (c *uvCtx) continuous() {
 		}
 	}
 	c.mode(modeV)
+}
+
+// outOfBox reports parameter points of the thorough tier whose shape parameter lies beyond
+// the property's box (shapes 0.3..50): the incomplete gamma/beta inverses are known to
+// break down in the far tails there (NOTES.md O3, O7), so the far-tail quantile points and
+// the cancellation-prone third and fourth moments are judged loosely.
+func (c *uvCtx) outOfBox() bool {
+	switch c.sp.name {
+	case "Beta":
+		return c.p[0] > 50 || c.p[1] > 50
+	case "F", "Chi", "ChiSquared":
+		for _, v := range c.p {
+			if v > 100 {
+				return true
+			}
+		}
+	case "StudentsT":
+		return c.p[2] > 100
+	case "Gamma", "InverseGamma":
+		return c.p[0] > 50
+	}
+	return false
 }
 
 // tailClass names the two known accuracy defects in whose region a failing
@@ -756,6 +790,13 @@ func (c *uvCtx) moment(name string, k int, q, absScale float64, get func() (floa
 	}
 	if sp := c.sp.points; sp == nil && k > c.maxMom {
 		c.t.Count("moments_too_close_to_the_existence_boundary_not_compared", 1)
+		return
+	}
+	if k >= 3 && c.outOfBox() {
+		// Chi{K: 1000}: Variance = K - Mean^2 cancels and Skewness/ExKurtosis amplify it (O8)
+		if !closeRA(v, q, math.Max(1e-3, c.momTol), math.Max(1e-4, c.momTol*absScale)) {
+			c.r.fail(name+"=quadrature", "", "%s=%v quadrature=%v (parameter beyond the box: tolerance 1e-4)", name, v, q)
+		}
 		return
 	}
 	if !closeRA(v, q, c.momTol, c.momTol*absScale) {
